@@ -32,39 +32,13 @@ HERE = os.path.dirname(os.path.abspath(__file__))
 REPO = R.REPO
 
 # ---------------------------------------------------------------------------------------------------------------------
-# KNOWN: genuine defects of the real `ucg fmt` (pinned tree), each confirmed by hand on the real binary.  While a tag
-# is listed the generators do not emit that feature and repository files are *masked* at exactly the offending spots
-# (see MASKS) so that the rest of the file stays covered.  Delete an entry once ucg is fixed: the family then includes
-# the feature again and the stand-ins turn into its regression test.
+# KNOWN: genuine defects of the real `ucg fmt`, confirmed by hand on the real binary; the named inputs are excluded so that
+# the stand-ins pass.  Delete an entry once ucg is fixed: the exclusion disappears with it.
+# (Fixed meanwhile and exercised again by every family: range with a step 8709a2c, floats with a zero fraction d1fbb1b,
+# blank comment lines 337ec97, quoted field names NULL.. / true.. / false.. e3a1334 + aa25f58.)
 # ---------------------------------------------------------------------------------------------------------------------
 KNOWN = [
-    dict(tag='float_zero_fraction',
-         input='let x = 1.0;',
-         observed='`let x = 1;` -- re-parses as Int(1) instead of Float(1.0).  Same for 0.0, 10.00, .0, every float '
-                  '>= 2^53 (`123456789012345678901234567890.0` -> `123456789012345680000000000000`, which does not even '
-                  'parse: i64 overflow) and a literal that underflows to 0.0.  4 shipped files change meaning: '
-                  'integration_tests/{constraint_test,func_test,types_test}.ucg, std/tests/schema_test.ucg '
-                  '(e.g. `let ratio :: in 0.0..1.0` -> `in 0..1`, `float(1) == 1.0` -> `float(1) == 1`)',
-         clause='(1) output parses to the same program'),
-    dict(tag='range_step',
-         input='let x = 0:2:6;',
-         observed='`let x = 0::26;` (start, "::", step, end glued) -- does not parse; `a:b:c` -> `a::bc`, '
-                  '`(1):(2):(3)` -> `(1)::(2)(3)`.  integration_tests/list_test.ucg is destroyed by `ucg fmt -w`',
-         clause='(1) output parses to the same program'),
-    dict(tag='keyword_prefixed_field_name',
-         input='let x = {"NULL" = 1};',
-         observed='`let x = {\\n    NULL = 1,\\n};` -- the quotes are dropped although the bare spelling is not a field name: the tokenizer '
-                  'reads NULL / true / false as keywords even as a prefix, so the output does not parse ("Expected (}) but got (NULL)").  '
-                  'Same for "NULLx", "NULL_", "trueish" (-> `trueish = 1`: "Expected (=) but got (ish)"), "falsey"; in tuples, copies '
-                  '`t{"NULL" = 1}`, select tuples and module parameters.  ("true" / "false" alone are fine: `true = 1` is accepted.)',
-         clause='(1) output parses to the same program'),
-    dict(tag='blank_comment',
-         input='// a\n//\n// b\nlet x = 1;',
-         observed='first pass writes the blank comment as `// ` (trailing blank), the second pass as `//`, the third '
-                  'as `// ` again: fmt(fmt(x)) != fmt(x).  Shipped files with blank comment lines '
-                  '(std/functional.ucg, std/strings.ucg, ...) flip on every run',
-         clause='(3) formatting formatted text returns it unchanged (comments on lines of their own between statements)'),
-    dict(tag='indented_comment_group',
+    dict(id='indented_comment_group',
          input='let m = module {} => {\nlet a = 1;\n// c1\n// c2\nlet b = 2;\n};',
          observed='first pass: `    let a = 1;\\n    \\n    // c1\\n    // c2\\nlet b = 2;` (the group stays together, indented); second pass puts an '
                   'empty line between `// c1` and `// c2` (consecutive comment lines are only read as one group when they start in column 1), '
@@ -72,11 +46,11 @@ KNOWN = [
                   'before tuple fields / list elements (`{\\n// c1\\n// c2\\n a = 1}`), which the statement does not cover',
          clause='(3) formatting formatted text returns it unchanged (comments on lines of their own between statements -- here of a module body)'),
 ]
-KNOWN_TAGS = set(k['tag'] for k in KNOWN)
+KNOWN_IDS = set(k['id'] for k in KNOWN)
 
 
-def known(tag):
-    return tag in KNOWN_TAGS
+def known(kid):
+    return kid in KNOWN_IDS
 
 
 # ---------------------------------------------------------------------------------------------------------------------
@@ -154,44 +128,6 @@ def first_diff(a, b, ctx=70):
     while i < min(len(a), len(b)) and a[i] == b[i]:
         i += 1
     return a[max(0, i - ctx):i + ctx], b[max(0, i - ctx):i + ctx]
-
-
-# ---------------------------------------------------------------------------------------------------------------------
-# masks for repository files (applied to code regions only, and only while the tag is KNOWN)
-# ---------------------------------------------------------------------------------------------------------------------
-MASKS = {
-    # 1.0 -> 1.5 (also next to the `..` of a range constraint, never the index of a selector `a.0`)
-    'float_zero_fraction': [(re.compile(r'(?<![\w"])(?<!(?<!\.)\.)(\d+)\.0*(?!\w)(?!\.(?!\.))'), r'\1.5'),
-                            (re.compile(r'(?<![\w.")\]}])\.0+(?!\w)'), '.5')],                                         # .0 -> .5
-    # 0:2:6 -> 0:6, 0:(start.val):6 -> 0:6 (operands: a name / number / selector or a parenthesised group)
-    'range_step': [(re.compile(r'(?<![\w.:])(%(op)s)\s*:\s*(%(op)s)\s*:\s*(%(op)s)' % dict(op=r'(?:\((?:[^()]|\([^()]*\))*\)|[\w.]+)')), r'\1:\3')],
-}
-
-
-def mask_known(src):
-    """(masked source, [tags applied])"""
-    applied = []
-    parts = regions(src)
-    for tag, subs in MASKS.items():
-        if not known(tag):
-            continue
-        for rx, rep in subs:
-            new = [(k, rx.sub(rep, t) if k == 'code' else t) for k, t in parts]
-            if new != parts:
-                applied.append(tag)
-                parts = new
-    if known('keyword_prefixed_field_name'):
-        # a string "NULL.." / "true<letters>" / "false<letters>" directly followed by `=` (not `==`) or `::` is a field name
-        new = []
-        for idx, (k, t) in enumerate(parts):
-            nxt = parts[idx + 1][1].lstrip() if idx + 1 < len(parts) else ''
-            if k == 'str' and re.match(r'"(NULL\w*|true[A-Za-z_]\w*|false[A-Za-z_]\w*)"$', t) and ((nxt.startswith('=') and not nxt.startswith('==')) or nxt.startswith('::')):
-                new.append((k, '"k_' + t[1:]))
-                applied.append('keyword_prefixed_field_name')
-            else:
-                new.append((k, t))
-        parts = new
-    return ''.join(t for k, t in parts), sorted(set(applied))
 
 
 # ---------------------------------------------------------------------------------------------------------------------
@@ -286,8 +222,6 @@ def check_family(name, bound, cases, generated, collect=None):
                       'every input comment, same text, same order: %r' % ci, 'formatted text:\n%s\ncomments: %r' % (out, co))
         if not comments_between_statements(out):
             continue
-        if known('blank_comment') and '' in co:
-            continue
         if known('indented_comment_group') and INDENTED_GROUP.search(''.join('""' if k == 'str' else t for k, t in regions(out))):
             continue
         elig.append((i, c, out))
@@ -343,7 +277,7 @@ def layout(items, rnd, style, pcomment):
         for _ in range(rnd.choice([1, 1, 1, 2, 3])):
             serial[0] += 1
             txt = 'c%d %s' % (serial[0], rnd.choice(COMMENT_TEXTS))
-            if not known('blank_comment') and rnd.random() < 0.15:
+            if rnd.random() < 0.12:          # blank comment line
                 txt = ''
             lines.append('//' + rnd.choice([' ', ' ', '', '  ', '\t']) + txt + rnd.choice(['', '', ' ', '  ']))
         ind = ' ' * rnd.choice([0, 2, 4])
@@ -396,15 +330,16 @@ STRINGS = ['""', '" "', '"plain"', '"a\\nb"', '"tab\\tx"', '"cr\\rx"', '"q\\"q"'
            '"é naïve ✓ 日本語 😀"', '"line1\nline2"', '"tab\tliteral"', '"\\a\\b\\0\\\'"', '"// not a comment"', '"x; y, {z} [w] (v)"',
            '"@ and \\\\@"', '"it\'s"', '"mixé\\n✓\\t\\"end\\""', '"l1\n// still the string\nl3"', '"  padded  "', '"% %% = == => :: : ."', '"NULL"', '"true"']
 SYMS = ['x', 'y', 'foo_bar', 'a1', 'kebab-name', 'camelCase', 'letter', 'inner', 'island', 'notable', 'selector', 'mapper', 'imports',
-        'failing', 'formatted', 'outer', 'asserted', 'item', 'B', 'x_', 'a-b-c']
+        'failing', 'formatted', 'outer', 'asserted', 'item', 'B', 'x_', 'a-b-c', 'trueish', 'falsey', 'NULLable', 'nullx']
 BARE_FIELDS = ['a', 'b', 'foo_bar', 'kebab-name', 'x1', 'ok', 'desc', 'let', 'in', 'is', 'not', 'select', 'func', 'module', 'map', 'filter',
-               'reduce', 'self', 'env', 'mod', 'import', 'include', 'fail', 'assert', 'out', 'constraint', 'convert', 'TRACE', 'as', 'true', 'false']
+               'reduce', 'self', 'env', 'mod', 'import', 'include', 'fail', 'assert', 'out', 'constraint', 'convert', 'TRACE', 'as', 'true', 'false',
+               'trueish', 'falsey', 'NULLx', 'NULL_']
 QUOTED_FIELDS = ['"a"', '"plain_name"', '"a b"', '""', '"é"', '"日本"', '"1x"', '"1"', '"x.y"', '"a\\"b"', '"a\\\\b"', '"a\\nb"', '"x-y"', '"_x"', '"_"',
                  '"x_"', '"let"', '"select"', '"true"', '"false"', '"in"', '"is"', '"not"', '"func"', '"module"', '"self"', '"env"', '"mod"', '"null"',
                  '"Null"', '"a=b"', '"a,b"', '"{"', '"// c"', '"@"', '" lead"', '"trail "', '"ALLCAPS"', '"x:y"',
                  '"a\\tb"', '"a\\\\"', '"A1"', '"a1_"', '"-a"', '"a-"', '"a--b"', '"0"', '"a\\rb"', '"a//b"', '"//"', '"xNULL"', '"nullable"', '"True"', '"true1"', '"\\""',
                  '"\\\\"', '"a;"', '"letx"', '"inx"', '"notx"', '"TRACEx"']
-QUOTED_FIELDS_KW = ['"NULL"', '"NULLx"', '"NULL_"', '"trueish"', '"falsey"']      # KNOWN keyword_prefixed_field_name
+QUOTED_FIELDS_KW = ['"NULL"', '"NULLx"', '"NULL_"', '"trueish"', '"falsey"', '"NULLNULL"', '"truefalse"']      # names starting with a value keyword
 BINOPS = ['+', '-', '*', '/', '%%', '==', '!=', '>', '<', '>=', '<=', '&&', '||', 'in', 'is', '~', '!~']
 CASTS = ['int', 'float', 'str', 'bool']
 CONVERTERS = ['json', 'yaml', 'toml', 'env', 'flags', 'exec', 'xml']
@@ -419,8 +354,7 @@ class Gen(object):
         return [self.r.choice(INTS)]
 
     def floatlit(self):
-        pool = FLOATS if known('float_zero_fraction') else FLOATS + FLOATS_ZERO
-        return [self.r.choice(pool)]
+        return [self.r.choice(FLOATS + FLOATS_ZERO)]
 
     def strlit(self):
         return [self.r.choice(STRINGS)]
@@ -432,8 +366,7 @@ class Gen(object):
         r = self.r.random()
         if r < 0.45:
             return self.r.choice(BARE_FIELDS)
-        pool = QUOTED_FIELDS if known('keyword_prefixed_field_name') else QUOTED_FIELDS + QUOTED_FIELDS_KW
-        return self.r.choice(pool)
+        return self.r.choice(QUOTED_FIELDS + QUOTED_FIELDS_KW * 2)
 
     def selector(self, d):
         items = [self.r.choice(SYMS + ['env', 'self', 'mod'])]
@@ -550,7 +483,7 @@ class Gen(object):
     def rangeexpr(self, d):
         part = lambda: self.r.choice([self.intlit, self.intlit, self.sym, lambda: self.grouped(d), lambda: self.selector(0)])()
         items = part() + [':']
-        if not known('range_step') and self.r.random() < 0.5:
+        if self.r.random() < 0.5:        # with a step
             items += part() + [':']
         return items + part()
 
@@ -631,8 +564,8 @@ class Gen(object):
         return ['('] + inner + [')']
 
     def operand(self, d):
-        # redundant parentheses; every bracket level uses up nesting budget (the real parser needs ~4x longer per level)
-        wraps = min(self.r.choice([0, 0, 0, 0, 1, 1, 2]), max(d, 0))
+        # redundant parentheses; every bracket level uses up nesting budget (keeps the programs small)
+        wraps = min(self.r.choice([0, 0, 0, 0, 1, 1, 2, 3]), max(d, 0))
         d -= wraps
         items = self.simple(d) if (d <= 0 or self.r.random() < 0.55) else self.closed(d)
         for _ in range(wraps):
@@ -674,7 +607,7 @@ class Gen(object):
 
 def generated_program(rnd, with_comments):
     g = Gen(rnd)
-    items = g.program(rnd.choice([1, 1, 2, 3, 4]), rnd.choice([1, 2, 2, 3]))
+    items = g.program(rnd.choice([1, 1, 2, 3, 4]), rnd.choice([1, 2, 2, 3, 3, 4, 5]))
     style = rnd.choice(['compact', 'spaced', 'wild', 'wild'])
     src, ncom = layout(items, rnd, style, (rnd.choice([0.15, 0.4, 0.8]) if with_comments else 0.0))
     tail = rnd.random()
@@ -704,7 +637,7 @@ def relayout(src, rnd, pcomment):
                 r = rnd.random()
                 if r < pcomment:
                     serial += 1
-                    out.append(rnd.choice(['\n', '\n  ', ' ']) + '//' + rnd.choice([' ', '']) + 'r%d %s' % (serial, rnd.choice(COMMENT_TEXTS)) + '\n' + rnd.choice(['', '  ']))
+                    out.append(rnd.choice(['\n', '\n  ', ' ']) + '//' + rnd.choice([' ', '']) + ('' if rnd.random() < 0.1 else 'r%d %s' % (serial, rnd.choice(COMMENT_TEXTS))) + '\n' + rnd.choice(['', '  ']))
                 elif r < pcomment + 0.3:
                     out.append(rnd.choice([' ', '\n', '\n\n', '\n      ', '\t', '  ']))
     return ''.join(out)
@@ -767,13 +700,7 @@ def standin_fmt_repo_files(tier, seed):
                 chosen.append((p, s))
                 size += len(s)
         bound = 'a seed-chosen subset (%d sources, %d bytes) of the %d distinct .ucg files and %d doc code blocks of the repository' % (len(chosen), size, nfiles, len(allsrc) - nfiles)
-    cases, masked = [], 0
-    for p, s in chosen:
-        m, tags = mask_known(s)
-        masked += 1 if tags else 0
-        cases.append(dict(source=m, label=p + (' (masked for KNOWN %s)' % ','.join(tags) if tags else '')))
-    if masked:
-        bound += '; %d of them with the spots of KNOWN defects masked' % masked
+    cases = [dict(source=s, label=p) for p, s in chosen]
     if tier == 'thorough':
         # the small ones once more with random blanks / line breaks / comments at the separators
         extra = 0
@@ -802,23 +729,32 @@ FIELD_CONTEXTS = ['let v = {%s = 1};', 'let v = {%s = 1, %s = 2,};', 'let v = t{
 def standin_fmt_literal_forms(tier, seed):
     lits = list(INTS) + list(FLOATS) + list(STRINGS) + ['NULL', 'true', 'false', 'x', 'kebab-name', 'a.b', 'a."q f"', 'a.0', '[]', '{}', '[1, [2.5, "s"]]']
     lits += ['1:10', 'a:b', '(1 + 1):(2 * 3)', 'x.lo:x.hi']
-    if not known('float_zero_fraction'):
-        lits += FLOATS_ZERO
-    if not known('range_step'):
-        lits += ['1:2:10', '0:1:0', 'a:b:c', '(1):(2):(3)', 'x.lo:2:x.hi']
-    fields = BARE_FIELDS + QUOTED_FIELDS + ([] if known('keyword_prefixed_field_name') else QUOTED_FIELDS_KW)
+    lits += FLOATS_ZERO
+    lits += ['1:2:10', '0:1:0', 'a:b:c', '(1):(2):(3)', 'x.lo:2:x.hi']
+    fields = BARE_FIELDS + QUOTED_FIELDS + QUOTED_FIELDS_KW
     ctxs = CONTEXTS if tier == 'thorough' else CONTEXTS[:4]
     fctxs = FIELD_CONTEXTS if tier == 'thorough' else FIELD_CONTEXTS[:3]
     cases = []
     for l in lits:
         for c in ctxs:
             cases.append(dict(source=c.replace('%%', '\0').replace('%s', l).replace('\0', '%') + '\n', label='literal %s in `%s`' % (l[:40], c)))
-    for l in INTS + FLOATS + ([] if known('float_zero_fraction') else FLOATS_ZERO):
+    for l in INTS + FLOATS + FLOATS_ZERO:
         for c in NUM_CONTEXTS:
             cases.append(dict(source=c.replace('%s', l) + '\n', label='number %s in `%s`' % (l[:40], c)))
     for f in fields:
         for c in fctxs:
             cases.append(dict(source=c.replace('%%', '\0').replace('%s', f).replace('\0', '%') + '\n', label='field name %s in `%s`' % (f, c)))
+    deep = [5, 12, 30, 60] if tier == 'thorough' else [5, 20]
+    for n in deep:
+        for sh in ['let d = %s1%s;' % ('(' * n, ')' * n), 'let d = %s1.0%s;' % ('[' * n, ']' * n), 'let d = %s1:2:3%s;' % ('{"NULL" = ' * n, '}' * n),
+                   'let d = %sx%s;' % ('[(' * n, ')]' * n), 'let d = %sx%s;' % ('f(' * n, ')' * n), 'let d = %s1%s;' % ('(1 + ' * n, ')' * n),
+                   'let d = %sx%s;' % ('func (a) => (' * n, ')' * n), 'let d = %sx%s;' % ('not (' * n, ')' * n),
+                   'let d = %s1%s;' % ('select (k, 0) => {a = ' * n, '}' * n), 'let d = %sx%s;' % ('module {} => (' * n, ') {}' * n)]:
+            cases.append(dict(source=sh + '\n', label='nesting depth %d: `%s...`' % (n, sh[:28])))
+    blank = ['//\nlet x = 1;\n', '// a\n//\n// b\nlet x = 1;\n', '//   \nlet x = 1;\n//\n', '//\t\n//\n\n//\nlet x = 1;\n//\n//\n', 'let x = 1; //\nlet y = 2;\n',
+             'let x = 1;\n\n//\n\nlet y = [\n  //\n  1,\n];\n']
+    for b in blank:
+        cases.append(dict(source=b, label='blank comment lines %r' % b))
     ops = BINOPS + ['.']
     nops = 0
     for o1 in ops:
@@ -829,15 +765,12 @@ def standin_fmt_literal_forms(tier, seed):
         for sh in shapes:
             cases.append(dict(source=sh + '\n', label='operators `%s`' % sh))
             nops += 1
-    bound = ('%d literal forms (integers, floats incl. leading-dot / tiny / 17-digit ones, strings with every escape, raw newline / tab and non-ASCII text, '
-             'NULL / booleans, symbols, selectors, ranges) x %d expression positions + %d numbers x %d constraint / range positions + %d field names '
+    bound = ('%d literal forms (integers, floats incl. zero fraction / leading-dot / tiny / huge / 17-digit ones, strings with every escape, raw newline / tab and non-ASCII text, '
+             'NULL / booleans, symbols, selectors, ranges with and without a step) x %d expression positions + %d numbers x %d constraint / range positions + %d field names '
              '(bare incl. every reserved word, quoted incl. keyword-like, `_x`, empty, non-ASCII, escapes) x %d tuple positions + %d operator shapes '
-             '(each of the 18 binary operators alone, under `not`, parenthesised%s)'
-             % (len(lits), len(ctxs), len(INTS + FLOATS), len(NUM_CONTEXTS), len(fields), len(fctxs), nops,
-                ', and every pair as `a o1 b o2 c`, `(a o1 b) o2 c`, `a o1 (b o2 c)`' if tier == 'thorough' else ''))
-    skipped = [k['tag'] for k in KNOWN if k['tag'] not in ('blank_comment', 'indented_comment_group')]      # no comments in this family
-    if skipped:
-        bound += '; without the KNOWN forms ' + ', '.join(skipped)
+             '(each of the 18 binary operators alone, under `not`, parenthesised%s) + 10 bracket forms nested to depth %s + %d programs with blank comment lines'
+             % (len(lits), len(ctxs), len(INTS + FLOATS + FLOATS_ZERO), len(NUM_CONTEXTS), len(fields), len(fctxs), nops,
+                ', and every pair as `a o1 b o2 c`, `(a o1 b) o2 c`, `a o1 (b o2 c)`' if tier == 'thorough' else '', ' / '.join(map(str, deep)), len(blank)))
     return check_family('fmt_literal_forms', bound, cases, generated=True)
 
 
@@ -860,19 +793,18 @@ def standin_fmt_generated(tier, seed):
     for j, g in enumerate(gold):
         if tier != 'thorough' and j % 6 != seed % 6:
             continue
-        src, tags = mask_known(g['program'])
+        src = g['program']
         for variant in range(2 if tier == 'thorough' else 1):
             sub = random.Random(rnd.getrandbits(48))
-            cases.append(dict(source=relayout(src, sub, 0.25 if variant == 0 else 0.0) + '\n', label='C01 table program #%d re-laid-out%s' % (j, ' (masked for KNOWN %s)' % ','.join(tags) if tags else '')))
+            cases.append(dict(source=relayout(src, sub, 0.25 if variant == 0 else 0.0) + '\n', label='C01 table program #%d re-laid-out' % j))
             ngold += 1
-    bound = ('%d random programs (1-4 statements, nesting <= 3) over let / constraint / assert / out / expression statements and all expression forms of '
+    bound = ('%d random programs (1-4 statements, expression nesting budget 1-5) over let / constraint / assert / out / expression statements and all expression forms of '
              'reference/grammar.md (17 binary operators with redundant parentheses, selectors, lists, tuples with bare and quoted names and shape constraints, '
              'copy, call, cast, both format forms, range, select, func, module, map / filter / reduce, import, include, fail, not, TRACE, convert) in compact / '
              'spaced / wild layout, two thirds with comments before statements, fields, list elements, arguments and operands, + %d re-laid-out programs of the '
              'C01 table' % (n, ngold))
-    skipped = [k['tag'] for k in KNOWN]
-    if skipped:
-        bound += '; without the KNOWN forms ' + ', '.join(skipped)
+    if KNOWN:
+        bound += '; fixed point not demanded for the KNOWN case ' + ', '.join(k['id'] for k in KNOWN)
     return check_family('fmt_generated', bound, cases, generated=True)
 
 
